@@ -122,7 +122,7 @@ class FixedPoint(Type):
         return self.integer_type.read(file_object) / self.denominator
 
     def send(self, value, socket):
-        self.integer_type.send(int(value * self.denominator))
+        self.integer_type.send(int(value * self.denominator), socket)
 
 
 # This named instance is retained for backward compatibility:
